@@ -316,7 +316,13 @@ def load_with_limit(res, t, argv, E, lines0, wr):
         trig = ("pop", k)
     # the interrupted process may have been running for (virtual) days: the saved running time is then large
     tx, sm, rr = run_proc(argv, trigger=trig, stand_in_cost=t.choice([0.0, 0.01, 9000.0, 90000.0]))
-    if not rr.ctx.fired or len(guesser.split_lines(tx)) != cut:
+    if rr.exc:
+        res.violate("C09", "raised", {"run": "quit", "exception": rr.exc[-1200:]})
+        return
+    if tx != "".join(g + "\n" for g in sm):
+        res.violate("C09", "stdout_not_guess_stream", {"run": "quit at %r" % (trig,), "stdout_lines": tx.count("\n"), "guesses": len(sm)})
+        return
+    if not rr.ctx.fired or len(sm) != cut:
         return
     res.faults["quit_then_load_with_limit"] += 1
     saved = {}
